@@ -29,7 +29,8 @@ BASE = [
 EXTRA_ONE = "let e{i} = {i};"
 EXTRA_THREE = "let g{i} = [\n    {i},\n];"
 
-PRELUDE = ["let ident = func (p) => p;", "let tt = {\n    have = 1,\n};", "let ll = [\n    1,\n];"]
+PRELUDE = ["let ident = func (p) => p;", "let tt = {\n    have = 1,\n    sv = \"s\",\n};", "let ll = [\n    1,\n];",
+           "let sv = \"s\";", "let two = func (p, q) =>\n    p +\n    q;", "let ls = [\n    \"s\",\n];"]
 
 FAULTS = [
     ("unknown-name", "nosuch"),
@@ -44,6 +45,41 @@ FAULTS = [
     ("syntax-double-comma", "[1,, 2]"),
     ("syntax-unclosed-bracket", "[1, 2"),
 ]
+
+# The offending operand of a run-time fault comes from somewhere: the VM takes the position it
+# reports from the value on its stack, so every way of producing that value is a separate path.
+# Each producer below yields the string "s"; each consumer faults on a string.
+PRODUCERS = [
+    ("name", "sv"),
+    ("call", "ident(\"s\")"),
+    ("call-multi-line-function", "two(\"\", \"s\")"),
+    ("nested-call", "ident(ident(\"s\"))"),
+    ("field", "tt.sv"),
+    ("index", "ls.0"),
+    ("select", "select (\"a\") => {a = \"s\"}"),
+    ("copy-field", "tt{z = \"s\"}.z"),
+    ("format", "(\"@\" % (\"s\"))"),
+    ("concat", "(\"\" + \"s\")"),
+    ("reduce", "reduce(func (acc, it) => acc + it, \"\", ls)"),
+]
+CONSUMERS = [
+    ("type-mismatch-right", "1 + @P@"),
+    ("type-mismatch-left", "@P@ + 1"),
+    ("failed-cast", "int(@P@)"),
+    ("not-boolean", "not @P@"),
+    ("and-left", "@P@ && true"),
+    ("and-right", "true && @P@"),
+    ("not-callable", "@N@(1)"),
+    ("copy-of-non-tuple", "@N@{a = 1}"),
+    ("range-end", "1:(@P@)"),
+    ("select-on-missing-arm", "select (@P@) => {\n        other = 1,\n    }"),
+    ("map-over-non-collection", "map(ident, int(\"1\") + @P@)"),
+]
+for _cn, _ct in CONSUMERS:
+    for _pn, _pt in PRODUCERS:
+        if "@N@" in _ct and _pn not in ("name", "field"):
+            continue        # a call or a copy needs a name or a selector in front of it
+        FAULTS.append(("%s<-%s" % (_cn, _pn), _ct.replace("@N@", "@P@").replace("@P@", _pt)))
 
 # nesting positions: text with @F@ ; "call" = the fault sits in a function body called later
 NEST = [
